@@ -216,7 +216,22 @@ func cmdReplay(args []string) int {
 		return 2
 	}
 	if !native {
-		fmt.Printf("harness %s has no native mode (its counterexamples stand on the solver's verdict through contract stubs); replay file: %s\n", rf.Harness, path)
+		fmt.Printf("harness %s has no native mode: its counterexamples stand on the solver's verdict through contract stubs.\nrecorded: kind=%s label=%q\nvalues of the symbolic inputs (draw order):\n", rf.Harness, rf.Kind, rf.Label)
+		var full struct {
+			Draws []struct {
+				Tag   string          `json:"tag"`
+				Text  string          `json:"text"`
+				Value json.RawMessage `json:"value"`
+			} `json:"draws"`
+		}
+		json.Unmarshal(rb, &full)
+		for _, d := range full.Draws {
+			v := string(d.Value)
+			if d.Text != "" {
+				v = d.Text
+			}
+			fmt.Printf("  %s = %s\n", d.Tag, v)
+		}
 		return 0
 	}
 	ov := baseOverlay(vd, rd)
